@@ -124,7 +124,7 @@ def run_property(prop, tier, seed, only=None, dump=None):
     lemmas = [l for l in U.LEMMAS if prop in l.props]
     bounded = [b for b in U.BOUNDED if prop in b.props]
     if only:
-        units = [u for u in units if any(o in u.qualname for o in only)]
+        units = [u for u in units if any(o in u.key for o in only)]
     nrand = 25 if tier == 'quick' else 400
     all_obls = []          # (unit short, OblResult)
     functions = []
@@ -181,14 +181,14 @@ def run_property(prop, tier, seed, only=None, dump=None):
                 elif rf.get('history'):
                     # the proof is about one call on an object in its declared state; the same function violates
                     # its contract on an object left over from an earlier call (state carried between calls)
-                    path = write_replay(prop, u.short, dict(property=prop, unit=u.short, qualname=u.qualname,
+                    path = write_replay(prop, u.short, dict(property=prop, unit=u.short, qualname=u.key,
                                                             obligation=rf['native']['failed'][0], inputs=rf['inputs'],
                                                             history=rf['history'], native=rf['native'],
                                                             note='violated on the second call on the same object'))
                     violations.append((path, ''))
                 else:
                     cross['disagreements'] += 1
-                    path = write_replay(prop, u.short, dict(property=prop, unit=u.short, qualname=u.qualname,
+                    path = write_replay(prop, u.short, dict(property=prop, unit=u.short, qualname=u.key,
                                                             obligation=rf['native']['failed'][0], inputs=rf['inputs'],
                                                             history=rf.get('history'),
                                                             native=rf['native'], solver='all obligations discharged',
@@ -229,7 +229,7 @@ def run_property(prop, tier, seed, only=None, dump=None):
                 hit = {'obligation': (names or ['?'])[0], 'inputs': rf2['inputs'], 'native': rf2['native'], 'sizes': 'random'}
         failing_desc = [o.as_dict() for o in failed]
         if hit is not None:
-            path = write_replay(prop, u.short, dict(property=prop, unit=u.short, qualname=u.qualname,
+            path = write_replay(prop, u.short, dict(property=prop, unit=u.short, qualname=u.key,
                                                     obligation=hit['obligation'], failing_obligations=failing_desc,
                                                     engine_error=res.error, inputs=hit['inputs'],
                                                     native=hit['native'], sizes=hit.get('sizes'),
@@ -257,7 +257,7 @@ def run_property(prop, tier, seed, only=None, dump=None):
         sem = [n for n in still if U.is_semantic(n) and n in locked]
         if sem:
             solver_out = {n: [o.as_dict() for o in res.obls if o.name == n][0] for n in sem}
-            path = write_replay(prop, u.short, dict(property=prop, unit=u.short, qualname=u.qualname,
+            path = write_replay(prop, u.short, dict(property=prop, unit=u.short, qualname=u.key,
                                                     obligation=sem[0], failing_obligations=failing_desc,
                                                     solver=solver_out, inputs=None, falsifier_notes=notes,
                                                     bounded_models=[{'obligation': f['obligation'],
@@ -415,7 +415,7 @@ def main():
         if a.prop == 'list':
             load_contracts()
             for u in U.REGISTRY.values():
-                print(u.props, u.qualname, 'trusted' if u.trusted else '')
+                print(u.props, u.key, 'trusted' if u.trusted else '')
             return 0
         if a.replay:
             return do_replay(a.prop, a.replay)
